@@ -156,6 +156,7 @@ EvalCase(cs) ==
                        [] t = "u0" -> UVec[1]  [] t = "u1" -> UVec[2]  [] t = "w0" -> VVec[1]  [] t = "w1" -> VVec[2]
                        [] t = "Gu" -> UJac  [] t = "Gv" -> VJac
                        [] t = "divu" -> MSum(Tab(d, LAMBDA q : UJac[q][q]))  [] t = "divv" -> MSum(Tab(d, LAMBDA q : VJac[q][q]))
+                       [] t = "B" -> KMat(RMat(fl.B))
                        [] t = "A" -> KMat(AF)  [] t = "J" -> KMat(A)  [] t = "Ainv" -> KMat(AFI)  [] t = "Jinv" -> KMat(JI)
                        [] OTHER -> K(Zero)]
         IN MIntegrate(AB!AbsEval(cs.tokens, lv), h)
